@@ -8,16 +8,23 @@ RULE = ('random histories of relay (strictly increasing whole-second virtual tim
         'disconnect / reconnect+ReplayLog / rotate (incl. twice per second) / clean and crash restart of the sender / log::SetLogPosition from the peer / '
         'incoming message with timestamp / ApiTimerHandler, over 6 endpoints with log_duration in {0,-1,30,600,3600,86400}; '
         'small two-file logs cut at EVERY byte offset of either file, then replayed (thorough: also 4-file logs with 23 entries, every offset of every file); reconnects in which the peer\'s own replay emission (same code, same situation) is handled before ours starts; bytes overwritten at sampled offsets with sampled values '
-        '(length header, terminator, structure, message text, timestamp digits). '
+        '(length header, terminator, structure, message text, timestamp digits); '
+        'size-boundaries: one entry of an exact byte length 64 KiB-1/64 KiB/64 KiB+1, 1 MiB-1/1 MiB/1 MiB+1, 4 MiB (thorough: 4095..4097, 8192, 9999/10000, 99999/100000, 128 KiB+-1, 999999/1000000, 2 MiB, 4 MiB+-1, 9999999/10000000; payload bytes x, quote, backslash), '
+        'or ending at an exact file offset k*64 KiB, placed first / in the middle / last in a rotated file or in current, small entries around it and in the other file, optional acknowledgement + clean-up + second outage; '
+        'big-history: random histories with several entries of 4 KiB .. 1.1 MiB (thorough .. 4 MiB); big-truncate: a file cut right before / inside / right after a large entry; '
+        'nonmonotone-clock: relays within one clock reading and with the clock stepped back by 1 s .. 1 h, rotations in the same second and right after the step, acknowledgement + clean-up. '
         'non-trivial = at least one persisted event and one replay that delivered something; distinct = distinct script text')
 TRUSTED = ['model: coq/Replay/RlBytes.v, RlModel.v (transcription of ApiListener::PersistMessage/RotateLogFile/OpenLogFile/ReplayLog/ApiTimerHandler/'
-           'SyncRelayMessage/RelayMessageOne, JsonRpcConnection::MessageHandler timestamp filter, SetLogPositionHandler, NetString::ReadStringFromStream)',
+           'SyncRelayMessage/RelayMessageOne, JsonRpcConnection::MessageHandler timestamp filter, SetLogPositionHandler, NetString::ReadStringFromStream); '
+           'RlCompact.v is PROVED to refine it (C12_record_model_*), so it adds nothing here',
            'log entry payload: tiny concrete encoding = the bytes JsonEncode emits for PersistMessage\'s dictionary; strict decoder for that shape only '
            '(JsonDecode accepts more; the generator keeps corrupting bytes to values on which both agree, see notes/C12.md)',
+           'tools/facts_c12.py: recognisers of the size limits (netstring reader digits / colon window / maxMessageLength test, what ReplayLog passes, what PersistMessage writes) and of the forms of ReplayLog/RotateLogFile',
            'hook H1 (virtual clock) in lib/base/utility.cpp; harness constructs ApiListener/JsonRpcConnection without PKI/sockets and reads the outgoing queue']
-ASSUMPTIONS = ['persisted timestamps strictly increase (premise of C12_replayed; two relays within the same clock reading make ReplayLog skip the second)',
+ASSUMPTIONS = ['the sender\'s clock advances before every relay (rl_hclocked, premise of C12_replayed; its boundary is the recorded finding nonincreasing-timestamps-not-replayed, family nonmonotone-clock)',
+               'every persisted entry is shorter than 10^9 bytes and has a timestamp below 10^15 s (rl_hsized over the regenerated limits; necessary: C12_read_limit_hides); the run covers entries up to 16 MiB',
                'no event is relayed while the peer is syncing (statement speaks about disconnected peers)',
-               'log files are smaller than the 64 KiB read chunk of StreamReadContext (whole-file buffer in the model)',
+               'StreamReadContext::FillFromStream delivers the whole file over successive calls (whole-file buffer in the model); exercised with files up to 16 MiB and frames ending at 4 KiB / 64 KiB chunk boundaries',
                'the local endpoint is the zone master and messages are locally generated (origin = null)']
 
 SECS = ['-', 'op', 'om', 'oa', 'ob', 'oc', 'og', 'za', 'zb', 'zm', 'zg', 'oa', 'ob', 'om']
@@ -220,6 +227,247 @@ def gen_corrupt(rnd, cases, nlogs, per_log):
             cases.append({'lines': lines, 'tags': {'family': 'corrupt-sampled'}})
 
 
+ESC = {'"': 2, '\\': 2}
+
+
+def enc_entry_len(ts, sec, mid, n, c):
+    """byte length of the entry PersistMessage writes for an event with a pad member of n bytes c (n < 0: none)"""
+    if n < 0:
+        e = enc_entry(ts, sec, mid)
+        return int(e[:e.index(':')])
+    msg = '{"jsonrpc":"2.0","method":"vf::ev","params":{"id":%d,"pad":""},"ts":%d}' % (mid, ts)
+    s = '{"message":"' + msg.replace('\\', '\\\\').replace('"', '\\"') + '"'
+    if sec != '-':
+        s += ',"secobj":{"name":"rl-%s","type":"%s"}' % (sec, TYPE_NAME[sec[0]])
+    s += ',"timestamp":%d}' % ts
+    k = ESC.get(c, 1)
+    return len(s) + n * k * k      # escaped once in the message text, once more in the entry
+
+
+def frame_len(n):
+    return len(str(n)) + 1 + n + 1
+
+
+SIZES_QUICK = [65535, 65536, 65537, 1048575, 1048576, 1048577]
+SIZES_MORE = [4095, 4096, 4097, 8192, 9999, 10000, 99999, 100000, 131071, 131072, 131073, 999999, 1000000,
+              2097152, 4194303, 4194304, 4194305, 9999999, 10000000]
+
+
+def gen_sizes(rnd, cases, tier):
+    """one large entry of an exact byte length (the netstring length prefix), or ending at an exact file offset, at the
+    boundaries of the reader: 4096 (one Read of StreamReadContext::FillFromStream), 64 KiB (one FillFromStream call),
+    1 MiB (the limit for anonymous JSON-RPC peers), 4 MiB, changes of the number of digits of the length prefix;
+    first / in the middle / last in its file; in a rotated file or in current; small entries around it and in the other file"""
+    sizes = list(SIZES_QUICK)
+    if tier != 'quick':
+        sizes += SIZES_MORE
+    plans = []
+    for S in sizes:
+        for pos in ('first', 'middle', 'last'):
+            for where in ('rotated', 'current'):
+                plans.append((S, pos, where, 'entry', 'x'))
+    if tier == 'quick':
+        plans.append((4194304, 'middle', 'rotated', 'entry', 'x'))
+        plans.append((1048576, 'middle', 'current', 'entry', '"'))
+        plans.append((65536, 'first', 'rotated', 'offset', 'x'))
+        plans.append((65536 * 3, 'middle', 'current', 'offset', 'x'))
+        plans.append((1048576, 'last', 'rotated', 'offset', '\\'))
+    else:
+        for S in (65536, 131072, 1048576, 4194304):
+            for d in (-1, 0, 1):
+                for pos in ('first', 'middle', 'last'):
+                    plans.append((S + d, pos, rnd.choice(('rotated', 'current')), 'offset', 'x'))
+        for S in (65536, 1048576, 4194304):
+            for c in ('"', '\\'):
+                for pos in ('first', 'middle', 'last'):
+                    plans.append((S + rnd.choice((-3, 0, 1)), pos, rnd.choice(('rotated', 'current')), 'entry', c))
+    for (S, pos, where, mode, c) in plans:
+        t = T0
+        lines = ['now %d' % t, 'rl_init dur=86400,86400,86400,86400,86400,86400']
+        mid = 0
+        npre = {'first': 0, 'middle': rnd.choice((1, 2, 3)), 'last': rnd.choice((1, 2))}[pos]
+        npost = {'first': rnd.choice((1, 2)), 'middle': rnd.choice((1, 2, 3)), 'last': 0}[pos]
+        nother = rnd.choice((1, 2))
+        e = rnd.choice((1, 1, 2, 3, 5))
+
+        def small(k):
+            nonlocal t, mid, lines
+            off = 0
+            for _ in range(k):
+                t += rnd.choice((1, 2, 7))
+                mid += 1
+                sec = rnd.choice(SECS)
+                pn = rnd.choice((-1, -1, 0, 1, 17, 300))
+                pad = '' if pn < 0 else ' pad=R%dx%02x' % (pn, ord(rnd.choice('xy "\\')))
+                lines += ['now %d' % t, 'rl_relay sec=%s id=%d%s' % (sec, mid, pad)]
+                pc = chr(int(pad[-2:], 16)) if pad else 'x'
+                off += frame_len(enc_entry_len(t, sec, mid, pn, pc))
+            return off
+
+        def big(before):
+            nonlocal t, mid, lines
+            t += rnd.choice((1, 2, 7))
+            mid += 1
+            sec = rnd.choice({3: ('-', 'oa'), 5: ('-', 'ob')}.get(e, ('-', 'om', 'oa', 'ob', 'zm')))     # one the endpoint may see
+            k = ESC.get(c, 1) ** 2
+            base = enc_entry_len(t, sec, mid, 0, c)
+            if mode == 'entry':
+                n = max(0, (S - base) // k)
+            else:
+                # the frame ends at file offset S (or as close below it as the escaping allows)
+                n = max(0, (S - before - base - 2 - len(str(S))) // k)
+                while n > 0 and before + frame_len(base + n * k) > S:
+                    n -= 1
+                while before + frame_len(base + (n + 1) * k) <= S:
+                    n += 1
+            lines += ['now %d' % t, 'rl_relay sec=%s id=%d pad=R%dx%02x' % (sec, mid, n, ord(c))]
+
+        if where == 'current':
+            small(nother)
+            t += 3
+            lines += ['now %d' % t, 'rl_rotate']
+        off = small(npre)
+        big(off)
+        small(npost)
+        if where == 'rotated':
+            t += 3
+            lines += ['now %d' % t, 'rl_rotate']
+            small(nother)
+        t += rnd.choice((2, 15))
+        lines += ['now %d' % t, 'rl_ls', 'rl_conn e=%d' % e, 'rl_ls']
+        if rnd.random() < 0.4:
+            # the peer confirms, clean-up, a second outage with further events, a second replay
+            t += 5
+            lines += ['rl_ack e=%d p=%d' % (e, t - 5), 'rl_disc e=%d' % e, 'now %d' % t, 'rl_ls', 'rl_timer', 'rl_ls']
+            small(2)
+            t += 2
+            lines += ['now %d' % t, 'rl_ls', 'rl_conn e=%d' % e, 'rl_ls']
+        cases.append({'lines': lines, 'tags': {'family': 'size-boundaries', 'size': S, 'mode': mode, 'pos': pos, 'where': where}})
+
+
+def gen_big_history(rnd, cases, n, tier):
+    """histories with several large entries (restarts, rotations, acknowledgements, clean-up in between)"""
+    for _ in range(n):
+        t = T0
+        durs = [rnd.choice((-1, 600, 3600, 86400)) for _ in range(6)]
+        lines = ['now %d' % t, 'rl_init dur=' + ','.join(map(str, durs))]
+        mid = 0
+        conn = set()
+        for _ in range(rnd.choice((8, 14, 20))):
+            r = rnd.random()
+            if r < 0.5:
+                t += rnd.choice((1, 1, 2, 5, 30))
+                mid += 1
+                pn = rnd.choice((-1, -1, 0, 100, 4096, 4097, 65400, 65536, 70000, 300000, 1048400, 1048576, 1100000) if tier == 'quick'
+                                else (-1, 0, 4096, 65400, 65536, 1048400, 1048576, 1100000, 2500000, 4194304))
+                pad = '' if pn < 0 else ' pad=R%dx%02x' % (pn, ord(rnd.choice('xxxz "\\')))
+                lines += ['now %d' % t, 'rl_relay sec=%s id=%d%s' % (rnd.choice(SECS), mid, pad)]
+            elif r < 0.68:
+                t += rnd.choice((0, 1, 3, 20))
+                e = rnd.choice((1, 2, 3, 4, 5, 6))
+                lines += ['now %d' % t, 'rl_ls', 'rl_conn e=%d' % e, 'rl_ls']
+                conn.add(e)
+            elif r < 0.76:
+                e = rnd.choice((1, 2, 3, 4, 5, 6))
+                lines += ['rl_disc e=%d' % e]
+                conn.discard(e)
+            elif r < 0.86:
+                t += rnd.choice((0, 1, 5))
+                lines += ['now %d' % t, 'rl_rotate', 'rl_ls']
+            elif r < 0.92:
+                t += rnd.choice((0, 1, 5))
+                lines += ['now %d' % t, 'rl_ls', 'rl_restart clean=%d' % rnd.randint(0, 1), 'rl_ls']
+                conn.clear()
+            else:
+                t += rnd.choice((5, 40, 700))
+                if conn:
+                    e = rnd.choice(sorted(conn))
+                    lines += ['rl_ack e=%d p=%d' % (e, t - rnd.choice((1, 30)))]
+                lines += ['now %d' % t, 'rl_ls', 'rl_timer', 'rl_ls']
+        e = rnd.choice((1, 2, 3, 5))
+        t += 2
+        lines += ['now %d' % t, 'rl_ls', 'rl_conn e=%d' % e, 'rl_ls']
+        cases.append({'lines': lines, 'tags': {'family': 'big-history'}})
+
+
+def gen_big_trunc(rnd, cases, n):
+    """a file with a large entry cut inside / right before / right after the large entry: the entries before the cut and
+    the other file are replayed"""
+    for _ in range(n):
+        t = T0
+        lines = ['now %d' % t, 'rl_init dur=86400,86400,86400,86400,86400,86400']
+        mid = 0
+        off = []
+        pos = 0
+        S = rnd.choice((70000, 200000, 1048576, 1500000))
+        for i in range(4):
+            t += rnd.choice((1, 2))
+            mid += 1
+            sec = rnd.choice(('-', 'om', 'oa'))
+            pn = S if i == 2 else -1
+            lines += ['now %d' % t, 'rl_relay sec=%s id=%d%s' % (sec, mid, '' if pn < 0 else ' pad=R%dx78' % pn)]
+            pos += frame_len(enc_entry_len(t, sec, mid, pn, 'x'))
+            off.append(pos)
+        name = t + 1
+        incur = rnd.random() < 0.5
+        if not incur:
+            t += 3
+            lines += ['now %d' % t, 'rl_rotate']
+            for i in range(2):
+                t += 1
+                mid += 1
+                lines += ['now %d' % t, 'rl_relay sec=- id=%d' % mid]
+        k = rnd.choice((off[1] - 1, off[1], off[1] + 1, off[1] + 8, off[1] + 65536, (off[1] + off[2]) // 2, off[2] - 1, off[2], off[2] + 1, off[3] - 1))
+        k = max(0, min(k, off[3]))
+        e = rnd.choice((1, 3, 5))
+        lines += ['now %d' % (t + 2), 'rl_trunc f=%s k=%d' % ('cur' if incur else str(name), k), 'rl_conn e=%d' % e]
+        cases.append({'lines': lines, 'tags': {'family': 'big-truncate'}})
+
+
+def gen_nonmonotone(rnd, cases, n):
+    """boundary of the premise 'strictly increasing timestamps / file named later than its entries': the sender's clock does
+    not advance between two relays (equal timestamps), steps back by 1 s .. 1 h, rotations in the same second (denied:
+    'never overwrite') and right after a step back (file named earlier than an entry in it), acknowledgement + clean-up"""
+    for _ in range(n):
+        t = T0 + 1000
+        lines = ['now %d' % t, 'rl_init dur=86400,86400,86400,86400,86400,86400']
+        mid = 0
+        e = rnd.choice((1, 1, 2, 3, 5))
+        stamps = []
+        bad = False
+        for i in range(rnd.choice((2, 3, 4, 6))):
+            dt = rnd.choice((0, 0, -1, -1, -5, -100, -3600, 1, 1, 2, 7))
+            if i == 0:
+                dt = rnd.choice((1, 5))
+            if dt <= 0:
+                bad = True
+            t += dt
+            mid += 1
+            lines += ['now %d' % t, 'rl_relay sec=%s id=%d' % (rnd.choice(('-', '-', 'om', 'oa', 'ob', 'zm')), mid)]
+            stamps.append(t)
+            r = rnd.random()
+            if r < 0.25:
+                lines += ['rl_rotate', 'rl_ls']
+                if rnd.random() < 0.5:
+                    lines += ['rl_rotate', 'rl_ls']          # twice in the same second: denied
+            elif r < 0.32:
+                lines += ['rl_ls', 'rl_restart clean=%d' % rnd.randint(0, 1), 'rl_ls']
+        if not bad:
+            mid += 1
+            lines += ['rl_relay sec=- id=%d' % mid]     # same clock reading as the previous event
+            stamps.append(t)
+        t = max(stamps) + rnd.choice((1, 3, 20))
+        lines += ['now %d' % t, 'rl_ls', 'rl_conn e=%d' % e, 'rl_ls']
+        if rnd.random() < 0.5:
+            p = rnd.choice(stamps) + rnd.choice((0, 1, -1))
+            t += 5
+            lines += ['rl_ack e=%d p=%d' % (e, p), 'rl_disc e=%d' % e, 'now %d' % t, 'rl_ls', 'rl_timer', 'rl_ls']
+            mid += 1
+            t += 1
+            lines += ['now %d' % t, 'rl_relay sec=- id=%d' % mid, 'now %d' % (t + 2), 'rl_ls', 'rl_conn e=%d' % e, 'rl_ls']
+        cases.append({'lines': lines, 'tags': {'family': 'nonmonotone-clock'}})
+
+
 def generate(seed, tier):
     rnd = random.Random(seed)
     cases = []
@@ -232,6 +480,10 @@ def generate(seed, tier):
     gen_mirror(rnd, cases, {'quick': 150, 'thorough': 1000, 'search': 300}.get(tier, 150))
     gen_corrupt(rnd, cases, {'quick': 40, 'thorough': 300, 'search': 80}.get(tier, 40), 25)
     gen_corrupt_any(rnd, cases, {'quick': 30, 'thorough': 200, 'search': 60}.get(tier, 30), 25)
+    gen_sizes(rnd, cases, 'quick' if tier in ('quick', 'search') else tier)
+    gen_big_history(rnd, cases, {'quick': 40, 'thorough': 300, 'search': 60}.get(tier, 40), 'quick' if tier in ('quick', 'search') else tier)
+    gen_big_trunc(rnd, cases, {'quick': 20, 'thorough': 150, 'search': 30}.get(tier, 20))
+    gen_nonmonotone(rnd, cases, {'quick': 150, 'thorough': 1500, 'search': 300}.get(tier, 150))
     return cases
 
 
@@ -250,16 +502,52 @@ def keep_line(l):
 
 
 def extra_stats(cases, impl):
-    st = {'persisted': 0, 'not_persisted': 0, 'replays': 0, 'replayed_messages': 0, 'setlogposition_in_replay': 0, 'truncations': 0, 'corruptions': 0}
+    st = {'persisted': 0, 'not_persisted': 0, 'replays': 0, 'replayed_messages': 0, 'setlogposition_in_replay': 0, 'truncations': 0, 'corruptions': 0,
+          'relays_with_pad': 0, 'largest_pad': 0, 'pads_ge_64KiB': 0, 'pads_ge_1MiB': 0, 'largest_replayed_message': 0, 'replayed_messages_ge_1MiB': 0,
+          'largest_log_file': 0, 'size_boundary_targets': {}, 'nonmonotone_relays': 0}
     for c in cases:
+        last = None
+        tnow = None
         for l in c['lines']:
             if l.startswith('rl_trunc'): st['truncations'] += 1
             if l.startswith('rl_corrupt'): st['corruptions'] += 1
+            if l.startswith('now '):
+                tnow = int(l.split()[1])
+            if l.startswith('rl_init'):
+                last = None
+            if l.startswith('rl_relay'):
+                if last is not None and tnow is not None and tnow <= last:
+                    st['nonmonotone_relays'] += 1
+                last = tnow
+                if ' pad=R' in l:
+                    n = int(l.split(' pad=R')[1].split('x')[0])
+                    st['relays_with_pad'] += 1
+                    st['largest_pad'] = max(st['largest_pad'], n)
+                    if n >= 65536 - 400: st['pads_ge_64KiB'] += 1
+                    if n >= 1048576 - 400: st['pads_ge_1MiB'] += 1
+        tg = c.get('tags', {})
+        if tg.get('family') == 'size-boundaries':
+            k = '%s:%d' % (tg['mode'], tg['size'])
+            st['size_boundary_targets'][k] = st['size_boundary_targets'].get(k, 0) + 1
         for l in impl.get(c['id'], []):
             if l.startswith('rl_relay logged=1'): st['persisted'] += 1
             elif l.startswith('rl_relay'): st['not_persisted'] += 1
             elif l.startswith('rl_conn'):
                 st['replays'] += 1
-                st['replayed_messages'] += l.count('M')
-                st['setlogposition_in_replay'] += l.count('P')
+                for it in l.split(' out=')[-1].split(','):
+                    if it.startswith('M'):
+                        st['replayed_messages'] += 1
+                        try:
+                            n = int(it[1:].split(':')[0])
+                        except ValueError:
+                            continue
+                        st['largest_replayed_message'] = max(st['largest_replayed_message'], n)
+                        if n >= 1048576: st['replayed_messages_ge_1MiB'] += 1
+                    elif it.startswith('P'):
+                        st['setlogposition_in_replay'] += 1
+            elif l.startswith('rl_ls files='):
+                for f in l.split()[1][6:].split(','):
+                    if ':' in f:
+                        st['largest_log_file'] = max(st['largest_log_file'], int(f.split(':')[1]))
+                st['largest_log_file'] = max(st['largest_log_file'], int(l.split(' cur=')[1].split()[0]))
     return st
